@@ -53,7 +53,7 @@ def gen_query(rng, w, v_, d):
     rps = v_.rps
     if rng.random() < 0.12:
         f['name'] = d.providers[rng.choice(rps)]['name'] \
-            if rng.random() < 0.8 else 'nope'
+            if rng.random() < 0.75 else rng.choice(['nope', '', 'p%', 'p_'])
     if rng.random() < 0.12:
         f['uuid'] = rng.choice(rps) if rng.random() < 0.8 else unknown_uuid
     if ver >= 14 and rng.random() < 0.3:
